@@ -427,7 +427,8 @@ def field_source(db, ctx):
             elif m == "write_empty_if_equal" and "Utf16Writer" in c and len(n["args"]) > 2:
                 got.append((m, nf(n["args"][1]), nf(n["args"][2])))
             elif m == "write_all" and n["args"]:
-                a = peel(n["args"][0])
+                from ..db import deref_all
+                a = deref_all(n["args"][0])
                 if a.get("k") == "MethodCall" and a.get("method") == "to_le_bytes":
                     got.append(("int", nf(a["recv"])))
         elif n.get("k") == "Call" and path_ends(n.get("callee"), "write_u32_array") and len(n["args"]) > 1:
